@@ -10,7 +10,7 @@ def components():
 
 
 def oracles_():
-    return [comps_difftree.KeepStream(), comps_uord.UordForwardOracle(), oracles.DiffFwd(), oracles.DiffUordFwd(), comps_difftree.DiffTreeLaws("C06"), comps_difftree.FixedRegress("C06")]
+    return [comps_difftree.KeepStream(), comps_uord.UordForwardOracle(), oracles.DiffFwd(), oracles.DiffUordFwd(), comps_difftree.DiffTreeLaws("C06"), comps_difftree.FixedRegress("C06"), comps_difftree.DiffKinds("C06")]
 
 
 MANIFEST = {
@@ -28,7 +28,7 @@ MANIFEST = {
             "A,B,C and must print the same diff trees (operation explicit or inherited, orig-value, orig-default, default flag, sibling "
             "order) and the same patched trees as libyang, with and without the defaults option (T2 dtree-C06); the well-formedness "
             "hypothesis wfb and the law without defaults (explicit nodes of apply(diff(A,B),A) equal those of B) are evaluated on every "
-            "generated case.",
+            "generated case. Node kinds outside the model (oracle difftree-kinds-C06, driver t_c14x, judged on dumps that show the value type and content of anydata / anyxml values, metadata and opaque nodes): trees with anydata / anyxml values of every representation (data tree, XML / JSON / plain string, empty string, no value) changing between A and B in every combination at any depth and inside list instances, metadata on created / deleted / replaced / unchanged nodes, opaque nodes in A and / or B: diff(A,A) empty, apply(diff(A,B),A) = B, the same after printing and parsing the diff (XML, JSON, LYB); what libyang does not carry (metadata, opaque nodes) is computed exactly per case and reported as known findings, everything else must be exact.",
     "note": "Modelled C: lyd_diff_userord_attrs, the user-ordered part of lyd_diff_siblings_r/lyd_diff_add, lyd_diff_insert, "
             "lyd_diff_apply_r for one list. Tree level (slice difftree): lyd_diff_siblings_r, lyd_diff_attrs, lyd_diff_find_match, "
             "lyd_diff_add (operation placement, sibling order incl. the lyds red-black tree of duplicated parents), lyd_diff_apply_r "
